@@ -532,6 +532,10 @@ func (f *frame) unop(x *ssa.UnOp, st *State) bool {
 				}
 			}
 		}
+		if _, isSlice := x.Type().Underlying().(*types.Slice); isSlice && l.Global == nil {
+			// the backing array of a slice kept in the heap is an allocation unit that exists
+			g.assumeUnder(st.reach, fmt.Sprintf("(or (= (s-arr %s) 0) (select %s (s-arr %s)))", r.T, g.arr(st.heap, "alloc", "Bool"), r.T))
+		}
 		if ci := f.closure[r.T]; ci == nil && l.Global == nil {
 			// remember the field a function value was loaded from (for stubs keyed by field)
 			if _, isSig := x.Type().Underlying().(*types.Signature); isSig {
@@ -730,7 +734,7 @@ func (f *frame) convert(x *ssa.Convert, st *State) bool {
 		g.declare(n, "Str")
 		ea := g.arr(st.heap, elemArrName("Int"), "(Array Int Int)")
 		g.assumeUnder(st.reach, fmt.Sprintf("(= (slen %s) (s-len %s))", n, v.T))
-		g.assumeUnder(st.reach, fmt.Sprintf("(forall ((k Int)) (! (=> (and (<= 0 k) (< k (s-len %[2]s))) (= (sat %[1]s k) (select (select %[3]s (s-arr %[2]s)) (+ (s-off %[2]s) k)))) :pattern ((sat %[1]s k))))", n, v.T, ea))
+		g.assumeUnder(st.reach, fmt.Sprintf("(forall ((k Int)) (! (=> (and (<= 0 k) (< k (s-len %[2]s))) (= (sat %[1]s k) (select (select %[3]s (s-arr %[2]s)) (slot (s-off %[2]s) k)))) :pattern ((sat %[1]s k))))", n, v.T, ea))
 		f.regs[x] = Val{T: n, Ty: x.Type()}
 	case from == to:
 		f.regs[x] = Val{T: v.T, Ty: x.Type()}
